@@ -547,6 +547,58 @@ def same_name_part(_):
     return res
 
 
+OBSERVER_STATEMENTS = ["match fb.Finished()", "match FlowFinished(flow_id=\"fb\")", "match fb.Started()", "match fa.Finished()", "match fb.Finished() or Other()",
+                       "match fb.Finished() and Other()", "await watcher", "match $ref.Finished()"]
+
+
+def observers_part(_):
+    """fa (more specific) and fb compete on E: fa wins, fb fails.  A third flow that does not react to E at all - it waits
+    for an event of a competitor (Finished / Started of the loser or the winner, by name, by flow_id, by reference, in a
+    group, through an awaited helper) - is a flow whose match did not fit: it is left untouched, and still reacts later."""
+    res = {"observer_cases": 0, "observer_outcomes": 0, "viol": []}
+    for stmt in OBSERVER_STATEMENTS:
+        for order in ("observer-first", "observer-last"):
+            obs = "flow obs\n" + ("  start fb2 as $ref\n" if "$ref" in stmt else "") + f"  {stmt}\n  send ObsDone()\n  match Never()\n\n"
+            helper = "flow watcher\n  match fb.Finished()\n\nflow fb2\n  match Later()\n\n"
+            starts = ["  start obs\n", "  start fa\n  start fb\n"]
+            if order == "observer-last":
+                starts.reverse()
+            src = ("flow fa\n  match E(p1=1)\n  start Act1Action()\n  match Never()\n\n"
+                   "flow fb\n  match E()\n  start Act2Action()\n  match Never()\n\n" + helper + obs +
+                   "flow main\n" + "".join(starts) + "  match Never()\n")
+            info = {"engine": "C05-inst", "source": src, "observer": stmt, "order": order}
+            name = "observer-of-a-competitor-disturbed:" + ("loser" if "fb" in stmt and "$ref" not in stmt else ("reference" if "$ref" in stmt else "winner")) + ":" + stmt.split("(")[0].replace("match ", "").replace(" ", "-")
+            try:
+                st = v2x.init_state(src)
+                v2x.step(st, v2x.resolve_event(st, ("start_main",)), [], v2x.UIDS.n)
+                outcomes = list(_all_outcomes(st, v2x.UIDS.n, {"type": "E", "p1": 1}))
+            except Exception as e:
+                res["viol"].append((f"{name}:interpreter-raised", f"{type(e).__name__}: {str(e)[:120]}", info))
+                continue
+            res["observer_cases"] += 1
+            for vec, st2, _n in outcomes:
+                res["observer_outcomes"] += 1
+                o = st2.flow_id_states["obs"][-1]
+                alive = {f: sm.is_listening_flow(st2.flow_id_states[f][-1]) for f in ("fa", "fb")}
+                what = None
+                if not alive["fa"] or alive["fb"]:
+                    what = f"fa (more specific) must win and fb fail: alive {alive}"
+                elif not sm.is_listening_flow(o):
+                    what = f"the observer `{stmt}` does not react to E and the awaited event did not occur (fb FAILED, fa goes on), yet it is {o.status.name}"
+                elif any(e["type"] == "ObsDone" for e in st2.outgoing_events):
+                    what = f"the observer `{stmt}` advanced although the awaited event did not occur"
+                if what:
+                    res["viol"].append((name, f"[{order}] tie-break {list(vec)}: " + what, dict(info, vector=list(vec))))
+                    break
+    seen, uniq = set(), []
+    for v in res["viol"]:
+        if v[0] not in seen:
+            seen.add(v[0])
+            uniq.append(v)
+    res["viol"] = uniq
+    return res
+
+
 def instance_event_part(_):
     """Two flows react to one event by sending an event to an action INSTANCE each holds (`send $r.Stop()`,
     `send $r.Change(...)`): different instances are different actions - exactly one flow proceeds; the same
@@ -738,6 +790,11 @@ def run(rep, tier):
         rep.set("same_name_outcomes", r["same_name_outcomes"])
         for sig, what, info in r["viol"]:
             rep.violation(sig, what, info)
+    for r in par.pmap(observers_part, [0]):
+        rep.set("observer_cases", r["observer_cases"])
+        rep.set("observer_outcomes", r["observer_outcomes"])
+        for sig, what, info in r["viol"]:
+            rep.violation(sig, what, info)
     for r in par.pmap(cascade_part, [0]):
         rep.set("cascade_programs", r["cascade_programs"])
         rep.set("cascade_outcomes", r["cascade_outcomes"])
@@ -759,7 +816,7 @@ def replay(rp):
         return 0
     if rp.get("engine") == "C05-inst":
         print(rp["source"])
-        for part in (instance_event_part, same_name_part):
+        for part in (instance_event_part, same_name_part, observers_part):
             r = part(0)
             for sig, what, _i in r["viol"]:
                 print(sig, ":", what)
